@@ -31,7 +31,7 @@
        expiry has not passed (RefreshKeyAsAccess);
      - a validation that finds an expired record deletes both keys of that record (ExpiredCleanup),
        and so does a Refresh that finds the refresh lifetime over;
-     - the refresh lifetime is not extended by Refresh.                                            *)
+     - whether Refresh extends the refresh lifetime is left open (the code does not extend it).                                            *)
 EXTENDS Integers, Sequences, FiniteSets, TLC, Json
 
 CONSTANTS TTL_A,      \* life of an access token, ticks
@@ -181,11 +181,13 @@ Refresh(t, mut, ok, a, r, fresh) ==
                /\ UNCHANGED <<nextId, tok, rotated>>
           ELSE /\ nextId + 2 <= MaxIds
                /\ ok = TRUE /\ a = nextId + 1 /\ r = nextId + 2
-               /\ \E G \in SUBSET Findings :
+               \* rx: the statement does not say whether a refresh extends the refresh lifetime (the code
+               \* keeps the original one); both are allowed
+               /\ \E G \in SUBSET Findings, rx \in {old.refExp, now + TTL_R} :
                     LET exp  == IF "refreshexp" \in G THEN old.exp ELSE now + TTL_A
-                        nrec == [acc |-> a, ref |-> r, exp |-> exp, refExp |-> old.refExp]
+                        nrec == [acc |-> a, ref |-> r, exp |-> exp, refExp |-> rx]
                         tk1  == tok @@ (a :> [kind |-> "acc", sec |-> secret, exp |-> exp])
-                                    @@ (r :> [kind |-> "ref", sec |-> secret, exp |-> old.refExp])
+                                    @@ (r :> [kind |-> "ref", sec |-> secret, exp |-> rx])
                         tab1 == Drop(table, Keys(old)) @@ (a :> nrec) @@ (r :> nrec)
                     IN  /\ fresh = Accepts(G, tk1, tab1, a)
                         /\ tok' = tk1
